@@ -235,6 +235,7 @@ type qWorld struct {
 	readyAtExit  map[string]bool
 	lastRestartAt time.Time
 	steering  bool      // yield rules installed by the current operation (removed after its settle)
+	tinyUsed  map[string]bool
 	mainStart time.Time // when the current daemon's Main (and its scan ticker) started
 	burstOps []Op
 	burstAdmin map[string]int // status of the administrative calls of the current burst
@@ -330,6 +331,27 @@ func (w *qWorld) stopNSQD() {
 // ---------------------------------------------------------------- bodies
 
 func (w *qWorld) makeBody(r *PRNG, sizeClass int64, textSafe bool) []byte {
+	if sizeClass == 5 {
+		// the shortest bodies there are: one byte (two when the single bytes are used up). The ledger tells
+		// messages apart by their body, so every such body is used once per run.
+		if w.tinyUsed == nil {
+			w.tinyUsed = map[string]bool{}
+		}
+		for tries := 0; tries < 600; tries++ {
+			b := []byte{byte(r.Intn(256))}
+			if len(w.tinyUsed) >= 200 {
+				b = append(b, byte(r.Intn(256)))
+			}
+			if textSafe && (bytes.IndexByte(b, '\n') >= 0) {
+				continue
+			}
+			if !w.tinyUsed[string(b)] && w.pubs[string(b)] == nil {
+				w.tinyUsed[string(b)] = true
+				w.nextBody++
+				return b
+			}
+		}
+	}
 	w.nextBody++
 	hdr := fmt.Sprintf("m%06d|", w.nextBody)
 	var n int
